@@ -183,6 +183,19 @@ def relCases (b : BinType) (t : XR) (obs p : Vec) : List (XR × XR) :=
 def invrelCases (obs q : Vec) : List (XR × XR) :=
   (obs.zip q).map fun c => (boolToXR (XR.le c.1 c.2), c.2)
 
+/-- one curve of InvReliability: the points of one quantile level and one input.  Only the curves of the first
+level carry the input's legend name. -/
+def invrelCurve (edges : List XR) (t k : Nat) (c : Vec × Vec) : Series :=
+  let r := reliabilitySeries 2 edges (invrelCases c.1 c.2)
+  { ax := 0, kind := "line", label := if t = 0 then inName k else "_", xs := r.map (·.1), ys := r.map (·.2.1) }
+
+/-- InvReliability with one or several quantile levels (-q a,b,…): for every level, in -q order, one curve per
+input in input order.  `levels[t][k]` = the valid (obs, quantile value) vectors of level t and input k.  Every curve
+is a function of ITS cases only: the per-bin arrays start afresh (x = 0, y = NaN) for every level, so a bin that is
+empty (or holds a single case) at one level has no point there, whatever another level holds in that bin. -/
+def invreliabilityFigure (edges : List XR) (levels : List (List (Vec × Vec))) : List Series :=
+  (levels.zipIdx.map fun lt => perInput (fun k c => [invrelCurve edges lt.2 k c]) lt.1).flatten
+
 /-- Discrimination: percentage of the cases of one class (observed 0 or 1) per probability bin -/
 def discriminationSeries (edges : List XR) (cs : List (XR × XR)) (cls : XR) : Vec :=
   let sel := (cs.filter fun c => XR.eqb c.1 cls).map (·.2)
